@@ -57,7 +57,7 @@ def generate(seed, stratum, tier):
   srcs = []
   for slot in range(nsrc):
     sig = rng.choice(names[:rng.randrange(1, 4)])
-    times = rng.choice([0, 0, None, 8])
+    times = rng.choice([0, 0, None, 8, 1, 2])      # some finish on their own before anything is cancelled
     c0.append(['timed', 0, rng.choice(['fifo', 'lifo']), sig, p * rng.choice([1, 1, 2]), times, rng.choice([True, True, False]), slot])
     srcs.append(sig)
   ncancel = rng.randrange(1, 4)
